@@ -5,6 +5,7 @@ import (
 	"flag"
 	"fmt"
 	"io"
+	"os"
 	"reflect"
 	"runtime/debug"
 	"sort"
@@ -132,6 +133,7 @@ var (
 
 type pendingEv struct {
 	before, after runtime.Object
+	rec           int // reconcile that caused it (0: an environment actor)
 }
 
 // World is one controller instance over one simapi server.
@@ -159,6 +161,7 @@ type World struct {
 	CatchUpOneByOne bool
 	midCopies       []cacheCopy
 	unreadyN        int // kubelet "unready" transitions so far in this scenario
+	curRec          int // id of the reconcile in progress (0 outside)
 }
 
 func (w *World) afterCall(c *simapi.Call) {
@@ -171,10 +174,16 @@ func (w *World) afterCall(c *simapi.Call) {
 		// one event per failed call: successive retries of the same write see successive cache states
 		// (e.g. a deletion first, the re-creation one attempt later)
 		n := -1
-		if w.CatchUpOneByOne {
+		if w.CatchUpOneByOne && c.Res != simapi.PVCs {
+			// (claims always catch up completely: the controller walks the claims of a pod in its own map
+			// order, and handing out one event per failed claim call would make the outcome depend on it)
 			n = 1
 		}
-		if w.Deliver(c.Res, n) > 0 {
+		d := w.Deliver(c.Res, n)
+		if os.Getenv("C09_DEBUG") == "2" {
+			fmt.Fprintf(os.Stderr, "      (mid-reconcile catch-up after failed %s %s %s: %d %s events delivered, %d still pending)\n", c.Verb, c.Res, c.Name, d, c.Res, w.Pending(c.Res))
+		}
+		if d > 0 {
 			// the objects that just entered the cache are watched for in-place modification as well
 			idx := w.inf[c.Res].GetIndexer()
 			for _, k := range idx.ListKeys() {
@@ -300,8 +309,21 @@ func (w *World) onWrite(res simapi.Res, before, after runtime.Object) {
 		return
 	}
 	w.pmu.Lock()
-	w.pending[res] = append(w.pending[res], pendingEv{before, after})
-	w.pmu.Unlock()
+	defer w.pmu.Unlock()
+	ev := pendingEv{before, after, w.curRec}
+	l := append(w.pending[res], ev)
+	// The controller creates the claims of a pod in its own map iteration order. Creates of different
+	// objects commute in a watch stream, so consecutive claim creates of one reconcile are queued in name
+	// order: which of them a partial delivery hands out is then the same in every run of the scenario.
+	if res == simapi.PVCs && before == nil && w.curRec != 0 {
+		i := len(l) - 1
+		for i > 0 && l[i-1].before == nil && l[i-1].rec == w.curRec && keyOf(l[i-1].after) > keyOf(after) {
+			l[i] = l[i-1]
+			i--
+		}
+		l[i] = ev
+	}
+	w.pending[res] = l
 }
 
 func (w *World) Pending(res simapi.Res) int {
@@ -565,6 +587,8 @@ func (w *World) run(key string, viaWorker bool) (rec *Record) {
 		qfrom = len(w.Q.Ops)
 	}
 	w.Srv.BeginReconcile(rec.ID)
+	w.curRec = rec.ID
+	defer func() { w.curRec = 0 }()
 	func() {
 		defer func() {
 			if p := recover(); p != nil {
